@@ -1682,7 +1682,7 @@ class Harness(object):
             return
         self.bump('op:' + name)
         probing = 'C10' in self.primary and name in ('create', 'set', 'setm', 'cadd', 'crem', 'cclear', 'del') \
-            and self.program.get('snap', 0) != 1
+            and self.program.get('snap', 0) != 1 and not self.variant.get('no_probes')
         if probing and self.in_session:
             self.guard_read(lambda: self.probe_reads(op, 'before'))
             if not self.in_session:
